@@ -230,6 +230,28 @@ def _rand_string(rng, P):
     return s
 
 
+def _text_macros(doc, bodies_only=True):
+    """The \\def\\text<ID>... macros of a TikZ document; a body may span several lines (label texts keep their line breaks),
+    it ends where the braces balance (label texts of this workload contain neither braces nor backslashes)."""
+    import re
+
+    out = []
+    lines = doc.split("\n")
+    i = 0
+    while i < len(lines):
+        m = re.match(r"^\\def\\text[A-Za-z]+(.*)$", lines[i], flags=re.S)
+        if m:
+            buf = m.group(1)
+            while buf.count("{") != buf.count("}") and i + 1 < len(lines) and not lines[i + 1].startswith("\\begin{document}"):
+                i += 1
+                buf += "\n" + lines[i]
+            out.append(buf)
+        i += 1
+    if bodies_only:
+        return [b[1:-1] for b in out if b.startswith("{") and b.endswith("}")]
+    return out
+
+
 def _insitu(ctx, mon, shard):
     """Label texts of real TikZ exports, as the emitter hands them to uni2tex."""
     import re
@@ -244,8 +266,10 @@ def _insitu(ctx, mon, shard):
         texts = []
         for i in range(n):
             s = _rand_string(rng, pools)
-            if any(c in s for c in "\\{}") or not s.strip() or "\n" in s or "\r" in s:
+            if any(c in s for c in "\\{}") or not s.strip() or "\r" in s:
                 s = "L%d" % i
+            if rng.random() < 0.08:
+                s = s + rng.choice([" \n", "\u00a0\n", "\t\n"]) + "second line"  # white space right before a line break
             if rng.random() < 0.15:
                 s = rng.choice(pools["marks"]) + s  # a label that starts with a combining accent
             texts.append(s)
@@ -281,12 +305,12 @@ def _insitu(ctx, mon, shard):
             else:
                 ctx.judge("insitu-export", INCONCLUSIVE, case, reason="export raised %s outside uni2tex (C11's concern)" % type(e).__name__)
             continue
-        defs = re.findall(r"^\\def\\text[A-Za-z]+\{(.*)\}$", doc, flags=re.M)
+        defs = _text_macros(doc)
         # the export boundary itself: every label text must be present as the body of one \def\text<ID>{...} macro,
         # converted as the property says - whether or not the emitter routed it through uni2tex label by label
         from oracles import texinv
 
-        raw = re.findall(r"^\\def\\text[A-Za-z]+(.*)$", doc, flags=re.M)
+        raw = _text_macros(doc, bodies_only=False)
         bad_macro = [r for r in raw if not (r.startswith("{") and r.endswith("}"))]
         bodies = [r[1:-1] for r in raw if r.startswith("{") and r.endswith("}")]
         unmatched = []
